@@ -266,7 +266,7 @@ func runConc(prop string, c *ConcCase, ch sched.Chooser) (concStats, []int, stri
 			}
 		}
 	}
-	s, err := bt.NewSrvWrap(c.Engine, "", func(in bttest.Storage) bttest.Storage { return bt.YieldStorage{Inner: in, Y: y} })
+	s, err := bt.NewSrvWrap(c.Engine, "", func(in bttest.Storage) bttest.Storage { return bt.WrapYield(in, y) })
 	if err != nil {
 		return st, nil, "server start: " + err.Error()
 	}
